@@ -825,6 +825,10 @@ def shrink_candidates(program):
 # fixed catalogue: complete enumeration of interrupt positions
 # --------------------------------------------------------------------------
 
+ENUM_CAP = 3000      # line events above which positions are sampled
+ENUM_SAMPLE = 300
+
+
 def _fixed_ops(tier):
     """A fixed (seed-independent) list of small operations: one small fit per
     trainer class (13); in the thorough tier additionally one operation per
@@ -886,6 +890,35 @@ def _enum_chunk(op, positions):
     return res
 
 
+def _count_lapack_c20(op):
+    from . import driver
+    if 'ok' not in driver._INIT:
+        driver._worker_init()
+    program = {'ops': [op], 'rng_seed': 1, 'trainer_kwargs': {}}
+    world = World(program)
+    seams.rng_seed(1)
+    with seams.lapack_shim({}) as shim:
+        call(op['op'], Ctx(world), op['a'], None)
+    return dict(shim.counts)
+
+
+def _enum_lapack_c20(op, func, ks):
+    from . import driver
+    if 'ok' not in driver._INIT:
+        driver._worker_init()
+    res = []
+    for k in ks:
+        first = copy.deepcopy(op)
+        first['fault'] = {'kind': 'lapack', 'func': func, 'k': int(k)}
+        follow = copy.deepcopy(op)
+        program = {'prop': 'C20', 'mode': 'enum', 'ops': [first, follow],
+                   'rng_seed': 1, 'trainer_kwargs': {}, 'tier': 'enum'}
+        r = execute(program)
+        res.append((func, k, r['violations'], r['counters'],
+                    program if r['violations'] else None))
+    return res
+
+
 def _enum_worker(op, positions):
     from . import driver
     if 'ok' not in driver._INIT:
@@ -914,22 +947,51 @@ def fixed_catalogue(tier, workers, log):
         futs = []
         for op, (n_events, n_sites, outcome) in zip(catalogue, counts):
             label = _entry_label(op['op'], op['a'])
+            # operations with very many line events (the shipped DHTV plan on
+            # 257 bins: > 10^5) are sampled with an even stride, and say so
+            if n_events > ENUM_CAP:
+                positions = sorted(set(
+                    int(x) for x in np.linspace(0, n_events - 1, ENUM_SAMPLE)))
+            else:
+                positions = list(range(n_events))
             per_entry.append({'entry': label, 'line_events': n_events,
+                              'positions_enumerated': len(positions),
+                              'complete': len(positions) == n_events,
                               'distinct_sites': n_sites, 'outcome': outcome})
-            total_positions += n_events
-            step = max(1, n_events // (4 * workers) + 1)
-            for s in range(0, n_events, step):
+            total_positions += len(positions)
+            step = max(1, len(positions) // (4 * workers) + 1)
+            for s in range(0, len(positions), step):
                 futs.append((label, pool.submit(
-                    _enum_worker, op, list(range(s, min(n_events, s + step))))))
+                    _enum_worker, op, positions[s:s + step])))
+        lap_counts = list(pool.map(_count_lapack_c20, catalogue))
+        lap_futs = []
+        for op, cnt in zip(catalogue, lap_counts):
+            for func, n in cnt.items():
+                if n:
+                    lap_futs.append(pool.submit(_enum_lapack_c20, op, func,
+                                                list(range(n))))
         for label, f in futs:
             for n, viols, fired_sites, program in f.result():
                 sites.update(fired_sites)
                 for v in viols:
                     v = dict(v, enumerated_position=n)
                     violations.append((-1, program, v))
+        lap_total = lap_fired = lap_absorbed = 0
+        lap_per_func = {}
+        for f in lap_futs:
+            for func, k, viols, counters, program in f.result():
+                lap_total += 1
+                lap_per_func[func] = lap_per_func.get(func, 0) + 1
+                lap_fired += counters.get('fault_fired:lapack', 0)
+                lap_absorbed += counters.get(
+                    'probe:lapack_fault_absorbed_by_fallback', 0)
+                for v in viols:
+                    violations.append((-1, program, dict(v, lapack_fault=[func, k])))
     log(f'# C20 fixed catalogue: {len(catalogue)} operations, '
-        f'{total_positions} interrupt positions enumerated completely '
-        f'({len(sites)} distinct file:line sites), '
+        f'{total_positions} interrupt positions enumerated '
+        f'({sum(1 for e in per_entry if e["complete"])} operations completely) '
+        f'({len(sites)} distinct file:line sites), {lap_total} LAPACK fault '
+        f'positions {lap_per_func} ({lap_fired} fired, {lap_absorbed} absorbed), '
         f'{len(violations)} violations, {time.time() - t0:.1f}s')
     return {
         'coverage': {'interrupt_enumeration': {
@@ -942,6 +1004,14 @@ def fixed_catalogue(tier, workers, log):
             'distinct_sites_hit': len(sites),
             'per_entry': per_entry,
             'wall_s': round(time.time() - t0, 1),
+        }, 'lapack_fault_enumeration': {
+            'exhaustive_over': 'every call index of numpy.linalg.{eigh,eig,'
+                               'solve,lstsq} issued from pb_bss during each '
+                               'catalogue operation; each is followed by the '
+                               'same operation fault-free on the same shared '
+                               'objects (O1, O3, O5, O6)',
+            'fault_positions': lap_total, 'per_function': lap_per_func,
+            'fired': lap_fired, 'absorbed_by_fallback': lap_absorbed,
         }},
         'violations': violations,
     }
